@@ -57,6 +57,23 @@ unsigned g_c_exits;
 #define VERIF_EXIT_compare_prefix CMP_EXIT
 #define VERIF_EXIT_compare_str_noaccent CMP_EXIT
 #define VERIF_EXIT_compare_prefix_noaccent CMP_EXIT
+/* comparers, functional rule (profile cmpf): base-letter counts and stripped strings, fixed by harness axioms.
+   g_ck[p] = number of base bytes (non-NUL, < 0x80 where the language has accents; non-NUL otherwise) in key[0..p),
+   g_sk    = the key with its non-base bytes removed (NUL-terminated); g_ce / g_se the same for the list element. */
+#ifndef CMP_KOBJ
+#define CMP_KOBJ POLYSEED_STR_SIZE
+#endif
+#ifndef CMP_EOBJ
+#define CMP_EOBJ 64
+#endif
+/* declared extern and never defined: CBMC gives such objects arbitrary initial contents */
+extern unsigned short g_ck[CMP_KOBJ + 1], g_ce[CMP_EOBJ + 1];
+extern char g_sk[CMP_EOBJ + 1], g_se[CMP_EOBJ + 1];   /* only the first CMP_EOBJ stripped letters of the key can matter */
+#define FA_E(e) __CPROVER_forall { size_t k_; (k_ < CMP_EOBJ) ==> (e) }
+#define CK ((size_t)g_ck[KO])
+#define CE ((size_t)g_ce[EO])
+#define NK ((size_t)g_ck[g_c_klen])
+#define NE ((size_t)g_ce[g_c_elen])
 /* lang_search: arbitrary but fixed comparison outcomes of the key against element i (stub comparer) */
 signed char g_cmp[2048];
 /* polyseed_phrase_decode exit: the local index copy must be wiped (C16) */
